@@ -215,4 +215,23 @@ PROPS = {
                  "(rule text, flags, buffer)."),
         "assumptions": ["a rule reference evaluates to the referenced rule's own condition (exec.c OP_PUSH_RULE)"],
     },
+    "C10": {
+        "src": "c10", "engine": "rc", "level": "exploration", "leaks": True,
+        "technique": "stateful differential property testing (rapidcheck): every scan of a generated history on one scanner vs the same scan on a fresh scanner",
+        "level_text": ("One long-lived scanner runs a generated history of scans over PE, ELF, Mach-O, empty and text buffers "
+                       "through mem / file / fd / block-iterator entry points with callback scripts (ABORT or ERROR at the "
+                       "k-th message, not-ready suspensions that are resumed or abandoned), interleaved with set_flags, "
+                       "set_timeout and scanner-level definitions; after every scan the full trace (messages, per-string "
+                       "matches, return code) must equal that of the same scan on a freshly created scanner with the same "
+                       "settings. Rules expose entrypoint, filesize, pe/elf/macho fields, math/hash values, string counts, "
+                       "offsets and lengths. The scanner is destroyed after the history and LeakSanitizer is run."),
+        "level_note": ("Trusts the shim; the match-limit (1,000,000 matches) and timeout endings are exercised by C15, not "
+                       "here; histories of 3-9 operations."),
+        "quick": (800, 45), "thorough": (40000, 600),
+        "floor": 50,
+        "rule": ("case = fixed 20-rule set + 1-4 generated rules, a history of 3-9 operations (75% scans). Non-trivial: a "
+                 "compared scan is preceded by >= 2 scans over >= 2 buffer kinds with >= 1 abnormal ending (callback "
+                 "abort/error or not-ready suspension); distinct by hash of (generated rules, operation list)."),
+        "assumptions": [],
+    },
 }
